@@ -119,3 +119,49 @@ pub async fn create_in_error(msg: &DnsMessage, err: Error) -> dnspkt::DNSPkt {
 /// modules `dns::router` and `dns::config` are crate-private); used by C19.
 pub use super::config::{Handler, Route};
 pub use super::router::DnsRouteHandler;
+
+/// The real DNS service (`DnsListenerHandler` behind `DnsService`) over a configuration the
+/// caller loaded (ACLs and routes as given; `routes_retarget` first if the upstreams are not on
+/// port 53), listening on `listeners` (port 0 = ephemeral).  Returns the service and the bound UDP
+/// and TCP addresses in the order of `listeners`.
+pub async fn service_from_config(
+    conf: crate::config::SharedConfig,
+    listeners: Vec<erbium_net::addr::NetAddr>,
+) -> Result<(DnsService, Vec<std::net::SocketAddr>, Vec<std::net::SocketAddr>), Error> {
+    use erbium_net::addr::NetAddrExt as _;
+    conf.write().await.dns_listeners = crate::config::AddressType::Addresses(listeners.clone());
+    let mut udp_listeners = vec![];
+    let mut tcp_listeners = vec![];
+    for addr in &listeners {
+        udp_listeners.push(DnsListenerHandler::listen_udp(&conf, addr).await?);
+        tcp_listeners.push(DnsListenerHandler::listen_tcp(&conf, addr).await?);
+    }
+    let udp = udp_listeners
+        .iter()
+        .map(|l| l.local_addr().unwrap().to_std_socket_addr().unwrap())
+        .collect();
+    let tcp = tcp_listeners.iter().map(|l| l.local_addr().unwrap()).collect();
+    let svc = DnsService {
+        next: tokio::sync::RwLock::new(DnsListenerHandler {
+            next: acl::DnsAclHandler::new(conf).await,
+            udp_listeners,
+            tcp_listeners,
+            rate_limiter: IpRateLimiter::new().into(),
+        })
+        .into(),
+    };
+    Ok((svc, udp, tcp))
+}
+
+/// The two buckets `IpRateLimiter::check` uses for `ip` (the seeds are constants inside `check`;
+/// they are repeated here, the hash is the limiter's own `hash_ip`).
+pub fn limiter_buckets(ip: std::net::IpAddr) -> (usize, usize) {
+    const SEED1: u64 = 0x1234_5678_9ABC_DEF0;
+    const SEED2: u64 = 0x2345_6789_ABCD_EF01;
+    let bucket1 = IpRateLimiter::hash_ip(SEED1, ip) % 256;
+    let mut bucket2 = IpRateLimiter::hash_ip(SEED2, ip) % 255;
+    if bucket2 == bucket1 {
+        bucket2 = 255;
+    }
+    (bucket1, bucket2)
+}
